@@ -295,15 +295,21 @@ theorem doLiveReload_frame (env : Env W.toTypes) (s : KSt W) (r : RRes W.toTypes
 
 /-! ### closed form of a complete run of `do_live_reload` -/
 
-/-- the `self.f = <cfg …>; … callee(..)?;` part after the parse step -/
+/-- the `callee(..)?; … self.f = <cfg …>; …` part after the parse step -/
 def silentPart : List RStep := reloadSteps.tail.takeWhile isSilent
-/-- the rest: notifications, `let cur_layer`, the two resets -/
+/-- the rest: notifications, `let cur_layer`, the resets -/
 def tailPart : List RStep := reloadSteps.tail.dropWhile isSilent
+/-- `self.prev_layer = cur_layer; self.f = <constant>; …` -/
+def resetPart : List RStep := (tailPart.drop 2).takeWhile isReset
 
 theorem reload_shape :
     reloadSteps = .parse :: (silentPart ++ tailPart) ∧ silentPart.all isSilent = true ∧
-    tailPart = [.notify "ConfigFileReload", .bindCurLayer, .assign .prev_layer false,
-      .assign .macro_on_press_cancel_duration false, .notify "LayerChange"] := by decide
+    tailPart = .notify "ConfigFileReload" :: .bindCurLayer :: (resetPart ++ [.notify "LayerChange"]) ∧
+    resetPart.all isReset = true := by decide
+
+/-- the state a complete run of `do_live_reload` on configuration `c` leaves -/
+def reloaded (c : W.Cfg) (s : KSt W) : KSt W :=
+  applyReset (W.currentLayer (W.cfgVal .layout c)) resetPart (applyCfg c silentPart s)
 
 theorem silent_keeps (c : W.Cfg) (s : KSt W) :
     (applyCfg c silentPart s) .cfg_paths = s .cfg_paths ∧
@@ -312,10 +318,17 @@ theorem silent_keeps (c : W.Cfg) (s : KSt W) :
     (applyCfg c silentPart s) .layer_info = W.cfgVal .layer_info c := by
   refine ⟨?_, ?_, ?_, ?_⟩ <;> rw [applyCfg_get] <;> simp (decide := true)
 
-/-- the state a complete run of `do_live_reload` on configuration `c` leaves -/
-def reloaded (c : W.Cfg) (s : KSt W) : KSt W :=
-  ((applyCfg c silentPart s).set .prev_layer (W.currentLayer (W.cfgVal .layout c))).set
-    .macro_on_press_cancel_duration (0 : Nat)
+theorem reloaded_keeps (c : W.Cfg) (s : KSt W) :
+    (reloaded c s) .cfg_paths = s .cfg_paths ∧ (reloaded c s) .cur_cfg_idx = s .cur_cfg_idx ∧
+    (reloaded c s) .layout = W.cfgVal .layout c ∧ (reloaded c s) .layer_info = W.cfgVal .layer_info c ∧
+    (reloaded c s) .prev_layer = W.currentLayer (W.cfgVal .layout c) := by
+  obtain ⟨k1, k2, k3, k4⟩ := silent_keeps c s
+  refine ⟨?_, ?_, ?_, ?_, ?_⟩ <;> simp only [reloaded] <;> rw [applyReset_get]
+  · simp (decide := true) [k1]
+  · simp (decide := true) [k2]
+  · simp (decide := true) [k3]
+  · simp (decide := true) [k4]
+  · simp (decide := true) [resetVal]
 
 /-- closed form of `do_live_reload` when the file parses and no fallible call fails -/
 theorem doLiveReload_success (env : Env W.toTypes) (s : KSt W) (p : Nat) (c : W.Cfg)
@@ -333,17 +346,52 @@ theorem doLiveReload_success (env : Env W.toTypes) (s : KSt W) (p : Nat) (c : W.
   simp only [hp, hc]
   rw [runSteps_append, runPrefix_silent env c silentPart none s [] reload_shape.2.1]
   · simp only
-    rw [reload_shape.2.2]
+    rw [reload_shape.2.2.1]
     obtain ⟨k1, k2, k3, k4⟩ := silent_keeps c s
+    obtain ⟨_, _, _, r4, _⟩ := reloaded_keeps c s
     by_cases htx : env.tx = true
-    · simp [runSteps, stepOne, htx, k1, k2, k3, hp, resetVal, reloaded, St.set_other, k4]
-      cases W.layerName (W.cfgVal .layer_info c) (W.currentLayer (W.cfgVal .layout c)) <;> simp
-    · simp [runSteps, stepOne, htx, k3, resetVal, reloaded]
+    · simp only [runSteps, stepOne, htx, k1, k2, hp, k3, if_true]
+      simp only [runSteps_append, runPrefix_resets env c resetPart _ _ _ reload_shape.2.2.2]
+      simp only [runSteps, stepOne, htx, if_true]
+      have e : (applyReset (W.currentLayer (W.cfgVal .layout c)) resetPart (applyCfg c silentPart s)) .layer_info =
+          W.cfgVal .layer_info c := r4
+      rw [e]
+      cases W.layerName (W.cfgVal .layer_info c) (W.currentLayer (W.cfgVal .layout c)) <;> simp [reloaded]
+    · have htx' : env.tx = false := by simpa using htx
+      simp only [runSteps, stepOne, htx']
+      simp only [runSteps_append, runPrefix_resets env c resetPart _ _ _ reload_shape.2.2.2]
+      simp [runSteps, stepOne, htx', reloaded, k3]
   · intro callee hm
     apply hf
     rw [mem_falliblesOf] at hm ⊢
     rw [reload_shape.1]
     exact List.mem_cons_of_mem _ (List.mem_append_left _ hm)
+
+/-- the fallible calls that a statement list makes after its first assignment -/
+def lateFalliblesOf (steps : List RStep) : List String :=
+  falliblesOf (steps.dropWhile fun | .assign _ _ => false | _ => true)
+
+/-- all-or-nothing for ANY statement list of the shape `parse; fallible calls; statements without
+fallible calls`: a reported failure leaves the state as it was and nothing has been sent -/
+theorem doLiveReloadWith_atomic (F rest : List RStep) (hF : F.all isFallible = true)
+    (hrest : falliblesOf rest = []) (env : Env W.toTypes) (s : KSt W) (r : RRes W.toTypes)
+    (h : doLiveReloadWith (.parse :: (F ++ rest)) env s = .ok r) (hr : r.ok = false) :
+    r.st = s ∧ r.msgs = [] := by
+  unfold doLiveReloadWith at h
+  simp only at h
+  split at h
+  · simp at h
+  · split at h
+    · simp at h; subst h; exact ⟨rfl, rfl⟩
+    · rename_i c _
+      rw [runSteps_append] at h
+      rcases runPrefix_fallibles env c F none s [] hF with ⟨h1, _⟩ | ⟨h1, _⟩
+      · rw [h1] at h
+        simp at h; subst h; exact ⟨rfl, rfl⟩
+      · rw [h1] at h
+        simp only at h
+        have := runSteps_ok env c rest none s [] r h (by rw [hrest]; intro _ hm; cases hm)
+        rw [hr] at this; cases this
 
 /-- `do_live_reload` returned `Ok`: the file parsed and the result is the closed form -/
 theorem doLiveReload_ok_inv (env : Env W.toTypes) (s : KSt W) (r : RRes W.toTypes)
@@ -433,5 +481,13 @@ theorem fresh_paths (paths : List Nat) (c : W.Cfg) :
   · simp only [fresh, freshAt, h1]; rfl
   · simp only [fresh, freshAt, h2]; rfl
 
+
+theorem resetVal_eq (l : Nat) (f : Field) (h : f ≠ .prev_layer) :
+    resetVal (W := W) l f = typedInit W f := by
+  cases f <;> first | rfl | exact absurd rfl h
+
+theorem constVal_eq (paths : List Nat) (idx : Nat) (f : Field) (h1 : f ≠ .cfg_paths) (h2 : f ≠ .cur_cfg_idx) :
+    constVal W paths idx f = typedInit W f := by
+  cases f <;> first | rfl | exact absurd rfl h1 | exact absurd rfl h2
 
 end KVerif.Reload
